@@ -143,6 +143,7 @@ func (c *wcCase) step(tid int) (string, bool) {
 	select {
 	case ev = <-done:
 	case <-time.After(2 * time.Second):
+		wcHung = true
 		return "HANG", false
 	}
 	var name string
@@ -167,7 +168,14 @@ func (c *wcCase) step(tid int) (string, bool) {
 	return sb.String(), true
 }
 
+// set once a managed goroutine got stuck in the library: its leaked goroutines may still run
+// into the yield hook, so the remaining c16 cases of this process are not executed
+var wcHung bool
+
 func runC16(toks []string) string {
+	if wcHung {
+		return "steps= HANG"
+	}
 	m := kv(toks[1:])
 	c := &wcCase{owner: -1}
 	c.s = coop.New(c.progs(m["progs"]))
